@@ -159,6 +159,13 @@ impl<T, TLocation> WithGenericLocation<T, TLocation> {
 //@contract
         ensures r.item == item, r.location == location,
 //@end
+//@fn rel=crates/common_lang_types/src/location.rs name=map within="impl<T, TLocation> WithGenericLocation<T, TLocation>" vis=pub ret=r
+//@hsub "map: impl FnOnce\(T\) -> U" => "map: F"
+//@hsub "fn map<U>" => "fn map<U, F: FnOnce(T) -> U>"
+//@contract
+        requires map.requires((self.item,)),
+        ensures r.location == self.location, map.ensures((self.item,), r.item),
+//@end
 }
 //@item rel=crates/common_lang_types/src/span.rs kind=struct name=WithSpan prefix="#[derive(Copy, Clone)] pub"
 impl<T> WithSpan<T> {
@@ -201,6 +208,7 @@ impl<'source> PeekableLexer<'source> {
     /// the cursor never moves backwards
     pub open spec fn monotone(&self, o: &Self) -> bool {
         self.end_index_of_last_parsed_token >= o.end_index_of_last_parsed_token && self.current.span.start >= o.current.span.start
+            && self.current.span.end >= o.current.span.end
     }
     /// at least the token that was current in `o` has been consumed: a span from the start of
     /// that token to the end of the last parsed token is well-formed
@@ -393,6 +401,121 @@ impl<'source> PeekableLexer<'source> {
                 cr is Ok ==> final(tokens).progressed(old(tokens)),
 //@closure 2 params="x: WithEmbeddedLocation<()>" ret="m: EmbeddedLocation"
             ensures m == x.location,
+//@end
+
+// ---- stand-ins for the parser's payload (opaque: the cursor contracts do not depend on them) ----
+impl Location { pub fn from(e: EmbeddedLocation) -> (r: Location) ensures r.embedded == e { Location { embedded: e } } }
+/// `s.contains(c)` for a char pattern
+#[verifier::external_body]
+pub fn str_contains_char(s: &str, c: char) -> bool { unimplemented!() }
+#[verifier::external_body]
+pub struct Selection { p: core::marker::PhantomData<u8> }
+//@item rel=crates/isograph_lang_types/src/declarations/client_selectable_declaration.rs kind=struct name=SelectionSet prefix="pub"
+
+/// a located value whose span is well-formed, lies inside the literal and does not start
+/// before the cursor position `o` it was parsed from
+pub open spec fn located_from<T>(v: WithEmbeddedLocation<T>, o: &PeekableLexer<'_>) -> bool {
+    v.location.span.start >= o.current.span.start && v.location.span.start <= v.location.span.end
+        && v.location.span.end <= byte_len(o.source)
+}
+/// contract every item / delimiter parser of the recursive descent satisfies: it runs on any
+/// well-formed cursor, keeps it well-formed on the same literal and never moves it backwards
+#[verifier::prophetic]
+pub open spec fn cursor_fn_ok<'a, T, F: Fn(&mut PeekableLexer<'a>) -> DiagnosticResult<T>>(f: F) -> bool {
+    &&& forall|x: &mut PeekableLexer<'a>| x.inv() ==> #[trigger] f.requires((x,))
+    &&& forall|x: &mut PeekableLexer<'a>, y: DiagnosticResult<T>| x.inv() && #[trigger] f.ensures((x,), y) ==>
+            final(x).inv() && final(x).same_literal(&*x) && final(x).monotone(&*x)
+}
+
+//@fn rel=crates/isograph_lang_parser/src/parse_iso_literal.rs name=parse_comma vis=pub ret=r serves=C07
+//@contract
+    requires old(tokens).inv(),
+    ensures final(tokens).inv(), final(tokens).same_literal(old(tokens)), final(tokens).monotone(old(tokens)),
+        r is Ok ==> final(tokens).progressed(old(tokens)),
+        r is Err ==> final(tokens).not_moved(old(tokens)),
+//@end
+
+//@fn rel=crates/isograph_lang_parser/src/parse_iso_literal.rs name=parse_line_break vis=pub ret=r serves=C07
+//@rw R15 R4
+//@sub "tokens\.source\(tokens\.white_space_span\(\)\)\.contains\('\\n'\)" => "str_contains_char(tokens.source(tokens.white_space_span()), '\\n')" n=1
+//@contract
+    requires old(tokens).inv(),
+    // the white space between the last parsed token and the current one is a well-formed
+    // range of the literal (precondition of `source`)
+    ensures *final(tokens) == *old(tokens), //@O C07.O-5_parse_line_break_reads_a_well_formed_range_and_moves_nothing
+//@end
+
+//@fn rel=crates/isograph_lang_parser/src/parse_iso_literal.rs name=parse_comma_or_line_break vis=pub ret=r serves=C07
+//@rw R15 R4
+//@contract
+    requires old(tokens).inv(),
+    ensures final(tokens).inv(), final(tokens).same_literal(old(tokens)), final(tokens).monotone(old(tokens)), //@O C07.O-5_parse_comma_or_line_break_preserves_cursor_invariant
+//@end
+
+//@fn rel=crates/isograph_lang_parser/src/parse_iso_literal.rs name=parse_delimited_list vis=pub ret=r serves=C07 prefix="#[verifier::exec_allows_no_decreases_clause]"
+//@rw R4
+//@hsub "parse_item: impl Fn\(&mut PeekableLexer<'a>\) -> DiagnosticResult<TResult> \+ 'a," => "parse_item: FI,"
+//@hsub "parse_delimiter: impl Fn\(&mut PeekableLexer<'a>\) -> DiagnosticResult<\(\)> \+ 'a," => "parse_delimiter: FD,"
+//@hsub "parse_delimited_list<'a, TResult>" => "parse_delimited_list<'a, TResult, FI: Fn(&mut PeekableLexer<'a>) -> DiagnosticResult<TResult> + 'a, FD: Fn(&mut PeekableLexer<'a>) -> DiagnosticResult<()> + 'a>"
+//@sub "let mut items = vec!\[\];" => "let mut items: Vec<TResult> = Vec::new();" n=1
+//@contract
+    requires
+        old(tokens).inv(), cursor_fn_ok(parse_item), cursor_fn_ok(parse_delimiter),
+    ensures
+        final(tokens).inv(), //@O C07.O-5_parse_delimited_list_preserves_cursor_invariant
+        final(tokens).same_literal(old(tokens)), final(tokens).monotone(old(tokens)),
+        // the list is located at its closing token, which was consumed
+        r is Ok ==> final(tokens).progressed(old(tokens)) && located_from(r->Ok_0, old(tokens)), //@O C07.O-5_delimited_list_located_at_its_closing_token
+//@closure 1 params="_k: IsographLangTokenKind" ret="v: Vec<TResult>"
+//@closure 2 params="_k: IsographLangTokenKind" ret="v: Vec<TResult>"
+//@closure 3 params="_k: IsographLangTokenKind" ret="v: Vec<TResult>"
+//@loop 1
+        invariant
+            tokens.inv(), tokens.same_literal(old(tokens)), tokens.monotone(old(tokens)),
+            cursor_fn_ok(parse_item), cursor_fn_ok(parse_delimiter),
+//@end
+
+/// parse_selection: contract assumed here (see the unit header for which parser functions
+/// are verified and which are assumed)
+#[verifier::external_body]
+pub fn parse_selection(tokens: &mut PeekableLexer<'_>) -> (r: DiagnosticResult<WithEmbeddedLocation<Selection>>)
+    requires old(tokens).inv(),
+    ensures final(tokens).inv(), final(tokens).same_literal(old(tokens)), final(tokens).monotone(old(tokens)),
+        r is Ok ==> final(tokens).progressed(old(tokens)),
+{ unimplemented!() }
+
+//@fn rel=crates/isograph_lang_parser/src/parse_iso_literal.rs name=parse_optional_selection_set_inner vis=pub ret=r serves=C07 prefix="#[verifier::exec_allows_no_decreases_clause]"
+//@rw R4
+//@sub "let mut selections = vec!\[\];" => "let mut selections: Vec<WithEmbeddedLocation<Selection>> = Vec::new();" n=1
+//@contract
+    requires old(tokens).inv(),
+    ensures
+        final(tokens).inv(), //@O C07.O-5_parse_selection_set_inner_preserves_cursor_invariant
+        final(tokens).same_literal(old(tokens)), final(tokens).monotone(old(tokens)),
+        // a selection set is reported only if its opening brace was consumed; otherwise the
+        // cursor has not moved
+        r is Ok && r->Ok_0 is Some ==> final(tokens).progressed(old(tokens)), //@O C07.O-5_selection_set_present_only_if_brace_consumed
+        r is Ok && r->Ok_0 is None ==> final(tokens).not_moved(old(tokens)), //@O C07.O-5_absent_selection_set_leaves_cursor_in_place
+//@loop 1
+        invariant
+            tokens.inv(), tokens.same_literal(old(tokens)), tokens.monotone(old(tokens)), tokens.progressed(old(tokens)),
+//@end
+
+//@fn rel=crates/isograph_lang_parser/src/parse_iso_literal.rs name=parse_optional_selection_set vis=pub ret=r serves=C07
+//@rw R4
+//@contract
+    requires old(tokens).inv(),
+    ensures
+        final(tokens).inv(), //@O C07.O-5_parse_optional_selection_set_preserves_cursor_invariant
+        final(tokens).same_literal(old(tokens)), final(tokens).monotone(old(tokens)),
+        r is Ok && r->Ok_0 is Some ==> final(tokens).progressed(old(tokens)) && located_from(r->Ok_0->Some_0, old(tokens)), //@O C07.O-5_selection_set_span_well_formed
+        r is Ok && r->Ok_0 is None ==> final(tokens).current.span.start == old(tokens).current.span.start,
+//@closure 1 params="tokens: &mut PeekableLexer<'_>" ret="cr: Result<Option<SelectionSet>, Diagnostic>"
+            requires old(tokens).inv(),
+            ensures final(tokens).inv(), final(tokens).same_literal(old(tokens)), final(tokens).monotone(old(tokens)),
+                cr is Ok && cr->Ok_0 is Some ==> final(tokens).progressed(old(tokens)),
+                cr is Ok && cr->Ok_0 is None ==> final(tokens).current.span.start == old(tokens).current.span.start,
+//@closure 2 params="selections: Vec<WithEmbeddedLocation<Selection>>" ret="ss: SelectionSet"
 //@end
 
 // ---- string / block-string callbacks of the logos lexer (token_kind.rs) ---------------
